@@ -145,7 +145,9 @@ def main(argv=None):
         print(f"  self-test: {selftest['programs']} variant programs analysed: "
               f"{selftest['breaking_detected']}/{selftest['breaking']} breaking variants detected, "
               f"{selftest['twins_silent']}/{selftest['twins']} behaviour-preserving twins silent, "
-              f"{selftest['seeded_detected']}/{selftest['seeded']} seeded changes detected")
+              f"{selftest['seeded_detected']}/{selftest['seeded']} seeded changes detected"
+              + (f", {selftest['repairs_silent']}/{selftest['repairs']} repaired variants silent" if selftest.get("repairs") else "")
+              + (f"; {len(selftest['skipped'])} variant(s) skipped" if selftest.get("skipped") else ""))
         for msg in selftest["problems"]:
             print(f"  SELF-TEST-PROBLEM {msg}")
         if selftest["problems"]:
